@@ -25,9 +25,12 @@ def interval_asserted_params(r: R, qual: str) -> Set[int]:
         if isinstance(n, ast.For) and isinstance(n.target, ast.Name) and isinstance(n.iter, ast.Name) and n.iter.id in fi.params:
             loopvars[n.target.id] = n.iter.id
     out = set()
+    from .common import local_aliases, unalias
+
+    al = local_aliases(fi.node)
     for n in ast.walk(fi.node):
         if isinstance(n, ast.Assert) and isinstance(n.test, ast.Compare):
-            sides = [n.test.left] + list(n.test.comparators)
+            sides = [unalias(x, al) for x in [n.test.left] + list(n.test.comparators)]
             if any(isinstance(s, ast.Subscript) and isinstance(s.slice, (ast.Constant, ast.UnaryOp)) for s in sides):
                 for s in sides:
                     if isinstance(s, ast.Name):
